@@ -4,7 +4,7 @@ from __future__ import annotations
 import ast
 from typing import Dict, List
 
-from .. import fx, q
+from .. import fx, pat, q
 from ..core import AnchorError, Ctx, FuncInfo, dotted, guard_facts, norm, walk_no_nested
 from ..typestate import CircuitProgram, apply, flatten, state_at_first_oracle
 from . import c10
@@ -130,7 +130,9 @@ def check_decoders(ctx: Ctx, ci, holder: str):
         v = v.replace(k, norm(b))
     ctx.check(v.replace(" ", "") == f"list(range(len({holder}.args[0])))", "SB-TWIN", oq, "output qubits = the input register", v, f"output_qubits is `{v}`, not the qubits of the argument", oq.node)
     calls = [c for c in q.calls(do.node) if (dotted(c.func) or "").endswith("interpret_as_qtype")]
-    ok = len(calls) == 1 and [norm(a) for a in calls[0].args] == [do.params[1], f"{holder}.args[0].ttype", f"len({holder}.args[0])"]
+    ba = q.bound_args(ctx.repo, calls[0], ("out", "qtype", "out_len")) if len(calls) == 1 else None
+    al = pat.path_aliases(do.node)
+    ok = ba is not None and all(a is not None for a in ba) and [pat.tx(a, al) for a in ba] == [do.params[1], f"{holder}.args[0].ttype", f"len({holder}.args[0])"]
     ctx.check(ok, "SB-TWIN", do, "decodes the reading as the argument's type and width", norm(calls[0]) if calls else "", "decode_output does not interpret the measured string with the argument's type and bit length", do.node)
 
 
